@@ -203,7 +203,7 @@ def main():
         ],
         "checks": checks,
         "not_applicable": na,
-        "notes": "All checks: ./check <id> --tier quick|thorough; VERIF_SEED rotates additional background values only. KNOWN_FINDINGS.json is read-only at run time.",
+        "notes": "All checks: ./check <id> --tier quick|thorough; VERIF_SEED rotates additional background values (and the non-UTC process time zone of the main pass) only. Every command runs two passes: the main pass and, if that held, a second pass of the same check (quick-tier bounds) in a deliberately different process environment (python -O -X dev -W error, time zone on the other side of UTC, DEBUG logging, decimal precision 6, other hash seed, test-extra packages not importable; DESIGN.md 9.5); its coverage is merged into the same evidence file (coverage.hostile_environment_pass), a violation found there prints the usual VIOLATION line and its replay file is replayed in that environment by ./check <id> --replay. VERIF_SKIP_OPT_PASS=1 skips the second pass (debugging only). KNOWN_FINDINGS.json is read-only at run time.",
     }
     with open(os.path.join(HERE, "MANIFEST.json"), "w") as f:
         json.dump(doc, f, indent=1)
